@@ -163,7 +163,7 @@ def render(items, indent=0, w=2):
             nm = (it[3] + ".") if len(it) > 3 else ""   # compact form: the keywords carry a name, which prefixes the nodes inside
             for c, body in it[1]:
                 lines.append(f"{pad}{nm}@else" if c is None else f"{pad}{nm}@case {c[0]}")
-                lines += render(body, indent + w, w)
+                lines += render(body, indent + w, w) if body else [" " * (indent + w) + "# nothing here"]
             if it[2]:
                 lines.append(f"{pad}{nm}@end")
     return lines
@@ -252,6 +252,9 @@ HAND = [
     ("adjacent-named-blocks-inside-a-clause", [("block", [((None, ("i", 0, 1, True)), [("block", [((None, ("b", 0, None, True)), [("def", "a", 10)]), (None, [("def", "a", 12)])], False, "p"),
                                                                                         ("block", [((None, ("b", 1, None, True)), [("def", "b", 20)]), (None, [("def", "b", 22)])], False, "q")]),
                                                           (None, [("def", "a", 1)])], True), ("def", "d", 99)]),
+    ("empty-clause-bodies-closed-by-indentation", [("def", "a", 0), ("block", [((None, ("b", 0, None, True)), [])], False), ("def", "b", 1),
+                                                   ("block", [((None, ("b", 1, None, True)), [("def", "d", 5), ("block", [((None, ("b", 2, None, True)), [])], False), ("def", "d", 6)]), (None, [])], False),
+                                                   ("def", "a", 7)]),
     ("same-condition-twice", [("block", [((None, ("b", 0, None, True)), [("def", "a", 1)]), ((None, ("b", 0, None, True)), [("def", "a", 2)]), (None, [("def", "a", 3)])], True)]),
 ]
 
@@ -579,6 +582,7 @@ C17_TEXTS += [
      [("bag.fruits", 3), ("bag.vegies.potato", 2.5), ("bag.vegies.carrot", 7), ("bag.speed", 30.0), ("bowl.fruits", 3), ("bowl.potato", 2.5), ("plate.potato", 2.5), ("plate.carrot", 7), ("v", 30.0), ("w", 30.0), ("mix", wa)],
      [("bag.vegies.potato", "kg"), ("bag.speed", "km/s"), ("bowl.potato", "kg"), ("v", "m/s"), ("w", "km/s"), ("mix", "m")],
      ["bag.fruits", "bag.vegies.potato", "bag.vegies.carrot", "bag.speed", "bowl.fruits", "bowl.potato", "plate.potato", "plate.carrot", "v", "w", "mix"]),
+    ("text-defining-a-unit-on-top-of-a-parsed-environment", "$unit ell = 5 m\nx float = 2 [ell]\ny float = {?a} [ell]\nx = 3 m", False, [("x", 0.6), ("y", wa)], [("x", "[ell]"), ("y", "[ell]")], ["x", "y"]),
     ("remote-request-selecting-no-node", f"$source rem = {REMOTE}\nq float = {{rem?nope}}", True, [], [], None),
     ("remote-request-selecting-several-nodes", f"$source rem = {REMOTE}\nq float = {{rem?vegies.*}}", True, [], [], None),
 ]
@@ -592,6 +596,11 @@ N17 = len(PRE17.names)
 def array_of(env, name):
     n = node_of(env, name)
     return None if n is None or n.value is None else [x for x in n.value.value]
+
+
+@spec
+def observed_units(env):
+    return [(k, v['magnitude'], v['value'], v['units']) for k, v in env.units.items()]
 
 
 @spec
@@ -615,8 +624,8 @@ def _(c):
     c.ensures("all([unit_of(result, nm) == u for nm, u in units])", "host-keeps-its-own-unit-or-adopts-the-referenced-one")
     c.ensures("all([array_of(result, nm) == xs for nm, xs in arrays])", "slice-applied-once")
     c.ensures(f"added is None or names_of(result)[{N17}:] == added", "exactly-the-selected-nodes-re-created-below-the-importing-node")
-    c.ensures(f"observed(base, {N17}) == old(observed(base, {N17}))", "previously-parsed-environment-unchanged")
-    c.on_raise(f"observed(base, {N17}) == old(observed(base, {N17}))", "previously-parsed-environment-unchanged-when-refused")
+    c.ensures(f"observed(base, {N17}) == old(observed(base, {N17})) and observed_units(base) == old(observed_units(base))", "previously-parsed-environment-unchanged")
+    c.on_raise(f"observed(base, {N17}) == old(observed(base, {N17})) and observed_units(base) == old(observed_units(base))", "previously-parsed-environment-unchanged-when-refused")
 
 
 # ---- C19: the Fortran module declares string arrays with a length no item exceeds -------------------------------------------------
@@ -681,6 +690,7 @@ C14_TEXTS = [
     ("constant-refused-typed", "fixed float = 1 m", True, [], []),
     ("declared-without-value-refused", "d float cm", True, [], []),
     ("declared-then-assigned", "d float cm\nd = {?w0} mm", False, [("d", ("/", w0, 10))], [("d", "cm")]),
+    ("integer-with-options-in-another-unit-keeps-its-unit", "lenm int = 2 m\n  = 2 m\n  = 300 cm\nlenm = 300 cm\nwid int = 2 km\n  !options [2,3] km\nwid = 3000 m", False, [("lenm", 3), ("wid", 3)], [("lenm", "m"), ("wid", "km")]),
     ("declared-boolean-without-value-refused", "fl bool", True, [], []),
     ("declared-integer-without-value-refused", "k int", True, [], []),
     ("declared-text-without-value-refused", "g\n  s str", True, [], []),
@@ -793,6 +803,19 @@ this is a note.
 """
   n int = 1
 ''', [("letter.body", "str", "Dear reader,\n\nthis is a note.\n\n", None), ("letter.blank", "str", "", None), ("letter.n", "int", 1, None)]),
+    ("block-and-table-ending-with-a-quote", '''
+note str = """
+he said "stop"
+"""
+people table = """
+id int
+name str
+
+1 "Jo Doe"
+2 "Ann Lee"
+"""
+k int = 2
+''', [("note", "str", 'he said "stop"', None), ("people.id", "int", [1, 2], None), ("people.name", "str", ["Jo Doe", "Ann Lee"], None), ("k", "int", 2, None)]),
     ("block-array-and-hash-inside-quotes", '''
 m int[2,2] = """
 [[1,2],
@@ -955,4 +978,41 @@ def _(c):
     c.ensures("[rust_type(result, s) for s in ['GRID_CELLS', 'FLAGS', 'CUBE', 'V', 'N']] == ['[[i16; 3]; 2]', '[[bool; 2]; 1]', '[[[u64; 1]; 3]; 2]', '[f32; 2]', 'i32']",
               "element-type-width-and-shape-with-the-last-index-innermost")
     c.ensures("'= [[1, 2, 3], [4, 5, 6]];' in result and '= [[[1], [2], [3]], [[4], [5], [6]]];' in result", "elements-in-row-major-nesting")
+    c.no_raise()
+
+
+# ---- C19: #define exports carry zero, false and empty-text values like any other value ------------------------------------------------
+EXCC = "dip/config/export_c.py::ExportConfigC"
+EXCPP = "dip/config/export_cpp.py::ExportConfigCPP"
+
+for _cls, _nm in ((EXCC, "C"), (EXCPP, "CPP")):
+    @contract(_cls + ".parse", ["C19"], name=f"ExportConfig{_nm}.parse[defines]")
+    def _(c, _cls=_cls):
+        c.bound = "one text with zero / false / empty / none and non-zero parameters exported as #define"
+
+        def pre(b, _cls=_cls):
+            d0 = b.new(DIPC, name="t")
+            b.call(b.getattr(d0, "add_string"), 'solver.offset int = 0\nratio float = 0.0\nflag bool = false\nname str = ""\nn int = 3\non bool = true\nmissing int = none')
+            env = b.call(b.getattr(d0, "parse"))
+            return dict(args=[b.new(_cls, env)], kwargs=dict(define=b.list(["solver.offset", "ratio", "flag", "name", "n", "on", "missing"])))
+        c.scenario("falsy-values", pre)
+        c.ensures("[l for l in result.split('\\n') if l.startswith('#define ') and not l.startswith('#define CONFIG')] == "
+                  "['#define SOLVER_OFFSET 0', '#define RATIO 0.0', '#define FLAG 0', '#define NAME \"\"', '#define N 3', '#define ON 1', '#define MISSING ']",
+                  "every-parameter-defined-with-its-value-only-none-without")
+        c.no_raise()
+
+
+# ---- C18 across parses: a custom unit means what the CURRENT text defines, whatever an earlier text in the same process called so ------
+@contract(DIPC + ".parse", ["C18", "C09"], name="DIP.parse[custom-unit-redefined-by-a-later-text]")
+def _(c):
+    c.bound = "an earlier parse defined and used a unit of the same name with another size; referenced values symbolic"
+
+    def pre(b):
+        d1 = b.new(DIPC, name="first")
+        b.call(b.getattr(d1, "add_string"), '$unit len = 2 m\np float = 3 [len]\nq float = ("{?p} + 1 [len]") m')
+        b.call(b.getattr(d1, "parse"))
+        d, env, S = prestate2(b, PRE18, '$unit len = 5 m\nx float = ("{?a} + 1 [len]") m\ny float = 2 [len]\ny = {?b}\nz bool = ("1 [len] > 4 m")')
+        return dict(args=[d], env=dict(S=S))
+    c.scenario("len-2m-then-len-5m", pre)
+    c.ensures("agrees(val_of(result, 'x'), ('+', ('s', 'wa'), 5), S) and agrees(val_of(result, 'y'), ('/', ('s', 'wb'), 500), S) and val_of(result, 'z') == True", "expressions-use-the-size-defined-by-this-text")
     c.no_raise()
